@@ -449,7 +449,100 @@ def work(shard):
     return part
 
 
+# ---------------------------------------------------------------------------
+# parameters without a type character: their type is the DEFtype default in force at each call
+
+DEFTYPES = {'!': 'DEFSNG', '%': 'DEFINT', '#': 'DEFDBL', '$': 'DEFSTR'}
+DT_GLOBALS = 'X!=5:X%=6:X#=8:X$="g":G!=3'
+DT_SNAP = '"[";X!;X%;X#;X$;G!;"]"'
+DT_SNAP_TEXT = '[ 5  6  8 g 3 ]'
+
+
+def deftype_cases(maxlen):
+    import itertools
+    for n in range(1, maxlen + 1):
+        for seq in itertools.product('!%#$', repeat=n):
+            for rng in ('X', 'W-Y'):
+                for mode in ('prog', 'direct'):
+                    yield {'types': ''.join(seq), 'range': rng, 'mode': mode}
+
+
+def deftype_program(case):
+    """The statements and the expected output: one call after the definition (default type single) and one
+    after each DEFtype statement; 1.75 rounds to 2 for an integer parameter."""
+    calls = []
+    for t in '!' + case['types']:
+        if t == '$':
+            calls.append(('PRINT "<";FNS$("ab");">";', '<abs>'))
+        else:
+            calls.append(('PRINT "<";FNA(1.75);">";', '< 7 >' if t == '%' else '< 6.5 >'))
+    stmts = [DT_GLOBALS, 'DEF FNA(X)=X*2+G!:DEF FNS$(X)=X+"s"', calls[0][0]]
+    for t, c in zip(case['types'], calls[1:]):
+        stmts.append('%s %s:%s' % (DEFTYPES[t], case['range'], c[0]))
+    stmts.append('PRINT %s;' % DT_SNAP)
+    return stmts, ''.join(c[1] for c in calls) + DT_SNAP_TEXT
+
+
+def judge_deftype(part, case):
+    stmts, expect = deftype_program(case)
+    s = H.new_session()
+    try:
+        out = b''
+        if case['mode'] == 'prog':
+            # the definitions are in a program; every call is a program line
+            lines = ['%d %s' % (10 * (i + 1), st) for i, st in enumerate(stmts)]
+            for l in lines:
+                r = H.run(s, l.encode('ascii'))
+                if r.exc is not None or r.out.strip():
+                    raise CheckError('line not accepted: %r -> %r' % (l, r))
+            runs = [b'RUN']
+        else:
+            # DEF FN is not allowed in direct mode: the definitions run from a program, the rest is typed
+            for l in ('10 ' + stmts[0], '20 ' + stmts[1]):
+                r = H.run(s, l.encode('ascii'))
+                if r.exc is not None or r.out.strip():
+                    raise CheckError('line not accepted: %r -> %r' % (l, r))
+            runs = [b'RUN'] + [st.encode('ascii') for st in stmts[2:]]
+        err = None
+        for cmd in runs:
+            r = H.run(s, cmd)
+            part.n += 1
+            if r.exc is not None:
+                part.violation('deftype/host-exception/%s' % H.exc_key(r.exc), '%r raised %r' % (cmd, r.exc), case)
+                return
+            out += r.out
+            err = err or r.err
+        part.traces += 1
+        got = out.decode('latin-1').replace('\r', '').replace('\n', '')
+        kind = 'str' if '$' in case['types'] else 'num'
+        if err is not None:
+            part.violation('deftype/%s/error' % kind, 'statements %r: error %r, output %r' % (stmts, err, got), case)
+        elif got != expect:
+            what = 'caller-variable-changed' if got[:got.find('[')] == expect[:expect.find('[')] else 'wrong-value'
+            part.violation('deftype/%s/%s' % (kind, what), 'statements %r printed %r, expected %r' % (stmts, got, expect), case)
+        part.classes.add('deftype/%s/%s' % (case['mode'], ''.join(sorted(set(case['types'])))))
+    finally:
+        s.close()
+
+
+def work_deftype(shard):
+    part = Partial()
+    for case in shard:
+        judge_deftype(part, case)
+    part.sample(shard[0])
+    return part
+
+
 def legs(ctx):
+    dt = list(deftype_cases(2 if ctx.quick else 4))
+    return _legs_calls(ctx) + [
+        Leg('deftype', list(chunked(dt, 24)), work_deftype, exhaustive=True,
+            bound='%d programs: a numeric and a string function with an untyped parameter, called after the definition and '
+                  'after each statement of every sequence of <= %d DEFSNG/DEFINT/DEFDBL/DEFSTR statements (letter or range), '
+                  'from a program and from direct mode' % (len(dt), 2 if ctx.quick else 4))]
+
+
+def _legs_calls(ctx):
     cases = get_cases(ctx.tier)
     n = len(cases)
     size = 150
@@ -463,6 +556,9 @@ def legs(ctx):
 
 def replay(ctx, leg, case):
     part = Partial()
+    if leg == 'deftype':
+        judge_deftype(part, case)
+        return part
     box = Box()
     params = tuple(case['params'])
     alph = {}
